@@ -25,6 +25,72 @@ type C10Case struct {
 	// Latin1: keys and path are re-encoded at check time so that U+0080..U+00FF become single bytes
 	// (keys that are not valid UTF-8); the JSON of the case keeps the readable spelling
 	Latin1 bool `json:"latin1,omitempty"`
+	// Storm > 0: instead of one path, Storm distinct resolvable paths of 7 segments into one tree (lists
+	// and objects in alternation, three children per node) are read in one go and then all of them once
+	// more: whatever the library keeps per path spelling (compiled forms, memo tables) sees more distinct
+	// deep paths than any bounded table holds, and the early ones again afterwards
+	Storm int `json:"storm,omitempty"`
+}
+
+// stormTree builds the tree of the path storm; leaf number i is the int i.
+func stormTree(depth int, base *int) any {
+	if depth == 0 {
+		*base++
+		return *base - 1
+	}
+	if depth%2 == 1 {
+		o := at.NewObject()
+		for _, k := range []string{"a", "b", "c"} {
+			o.Set(k, stormTree(depth-1, base))
+		}
+		return o
+	}
+	l := at.NewList()
+	for i := 0; i < 3; i++ {
+		l.Add(stormTree(depth-1, base))
+	}
+	return l
+}
+
+func stormPath(leaf, depth int) string {
+	var sb strings.Builder
+	div := 1
+	for i := 1; i < depth; i++ {
+		div *= 3
+	}
+	for d := depth; d > 0; d-- {
+		digit := leaf / div % 3
+		if d%2 == 1 {
+			sb.WriteString("." + string(rune('a'+digit)))
+		} else {
+			sb.WriteString("#" + strconv.Itoa(digit))
+		}
+		div /= 3
+	}
+	return sb.String()
+}
+
+func checkStorm(c *C10Case, st *Stats) error {
+	const depth = 7
+	n := 0
+	root := stormTree(depth, &n).(at.Object)
+	st.Count("path_storm")
+	st.MarkNonTrivial()
+	for pass := 0; pass < 2; pass++ {
+		for i := 0; i < c.Storm && i < n; i++ {
+			leaf := (i * 7) % n // 7 and 3^7 are coprime: distinct leaves
+			p := stormPath(leaf, depth)
+			var got any
+			var typ at.Type
+			if pv, panicked := catch(func() { got, typ = root.GetTF(p), root.TypeOfTF(p) }); panicked {
+				return errf("path storm, pass %d, path %d: GetTF/TypeOfTF(%q) panicked on a resolvable path: %v", pass+1, i, p, pv)
+			}
+			if got != leaf || typ != at.TypeInt {
+				return errf("path storm, pass %d, path %d of %d: GetTF(%q) = %s (TypeOfTF %d), step-by-step navigation gives int(%d)", pass+1, i, c.Storm, p, showAny(got), typ, leaf)
+			}
+		}
+	}
+	return nil
 }
 
 // tfKeys: non-empty, sigil-free keys (the only keys tree form can address).
@@ -254,7 +320,10 @@ func corruptPath(t *rapid.T, root V, segs []tfSeg) (string, string) {
 			s[j].text = []string{"1" + strings.Repeat("0", 20),
 				new(big.Int).Add(two64, big.NewInt(int64(k))).String(),
 				new(big.Int).Add(new(big.Int).Mul(two64, big.NewInt(3)), big.NewInt(int64(k))).String(),
-				"9223372036854775808", strconv.Itoa(1<<32 + k), new(big.Int).Add(new(big.Int).Lsh(big.NewInt(1), 63), big.NewInt(int64(k))).String()}[drawInt(t, 0, 5, "ovf")]
+				"9223372036854775808", strconv.Itoa(1<<32 + k), new(big.Int).Add(new(big.Int).Lsh(big.NewInt(1), 63), big.NewInt(int64(k))).String(),
+				// 2^64 - m and 2^32 - m: a small negative number once the digits are squeezed into a signed word
+				new(big.Int).Sub(two64, big.NewInt(int64(1+k))).String(), "18446744073709551615", strconv.Itoa(1<<32 - 1 - k),
+				new(big.Int).Sub(new(big.Int).Lsh(big.NewInt(1), 63), big.NewInt(int64(1+k))).String()}[drawInt(t, 0, 9, "ovf")]
 		case "noncanonical_index":
 			s[j].text = []string{"0" + s[j].text, "+" + s[j].text, "0x" + s[j].text, "-0", "0b1", "1_0", "00"}[drawInt(t, 0, 6, "nc")]
 		}
@@ -294,6 +363,9 @@ func corruptPath(t *rapid.T, root V, segs []tfSeg) (string, string) {
 }
 
 func GenC10(t *rapid.T) *C10Case {
+	if oneIn(t, 1500, "storm") {
+		return &C10Case{Root: VList(), Class: "storm", Storm: []int{700, 1100, 1700, 2187}[drawIdx(t, 4, "nstorm")]}
+	}
 	c := genC10(t)
 	if drawBool(t, "variant") {
 		c.Build = 1 + genRaw(t)
@@ -428,6 +500,9 @@ func typeOfAny(x any) at.Type {
 }
 
 func CheckC10(c *C10Case, st *Stats) error {
+	if c.Storm > 0 {
+		return checkStorm(c, st)
+	}
 	if c.Root.K != KList && c.Root.K != KObject {
 		return nil
 	}
